@@ -56,6 +56,7 @@ Differs(exp, got) == got.n # exp.n \/ (IF exp.dig = "vals"
 ReadItem(p, r, o, m) ==      \* o: observed dataset record, m: model object
   LET got == o[r]  exp == m.data[r] IN
   IF got.res = "panic" THEN <<[diag |-> "read-panic", p |-> p, read |-> r, dt |-> m.dt]>>
+  ELSE IF got.res = "unsupported" THEN <<>>       \* the view that produced the observation cannot decode this storage (filtered chunks in the independent decoder)
   \* never written, but resized: the space Resize added reads as zero - so the read succeeds, returns the whole extent, and
   \* (rank 1, where positions are indices) every element beyond the smallest extent the dataset has had is 0
   ELSE IF ~m.written /\ m.grownbare # <<>> /\ r = "f64" /\ m.dt.cls \in {0, 1} /\ m.dt.size \in {4, 8}
